@@ -253,7 +253,7 @@ void Drain()
       std::string res = rest[0] == "-1" ? "fail " + rest[1].substr(6) : rest[0];
       har::obs("os " + w[1] + " recv " + l.substr(lp + 4, le - lp - 4) + " " + res);
     } else if(w[0] == "ssl" || w[0] == "sslret" || w[0] == "sslexn" || w[0] == "bio" || w[0] == "api" || w[0] == "ret" ||
-              w[0] == "rx" || w[0] == "disc" || w[0] == "fut" || w[0] == "enq" || w[0] == "hs") {
+              w[0] == "rx" || w[0] == "disc" || w[0] == "fut" || w[0] == "enq" || w[0] == "hs" || w[0] == "dpend") {
       har::obs(l);
     }
   }
@@ -355,6 +355,12 @@ bool DoStep(Scen &sc, Driver &d, std::string const &dname, long T)
 {
   size_t before = (sc.c ? sc.c->got.size() : 0) + (sc.s ? sc.s->got.size() : 0);
   vos::log_note("api " + dname + " step " + std::to_string(T));
+  // what DriverQuery will see: decrypted bytes an asynchronous TLS endpoint of this driver still holds inside OpenSSL
+  for(auto *e : {sc.c.get(), sc.s.get()}) {
+    if(e && e->kind == "async" && e->dname == dname && e->ssl) {
+      vos::log_note("dpend " + e->name + " " + std::to_string(SSL_pending(e->ssl)));
+    }
+  }
   try {
     d.Step(Duration(T));
     vos::log_note("ret " + dname + " ok");
